@@ -45,6 +45,10 @@ def make_world(ctx, deep):
     w.add("/L/n2", DIR, mode=sym_int(ctx, "m_n2", [0o755, 0o555]))
     w.add("/L/n2/f", FILE, content="sibling", mode=0o644)
     w.add("/L/n2.toml", FILE, content=TomlText(True, TVal("n2doc", kind="table", entries=[])), mode=0o644)
+    # a sibling layer whose name extends the subject's name (layer names may contain dots), with its own SBOM file
+    w.add("/L/n1.x", DIR, mode=0o755)
+    w.add("/L/n1.x.toml", FILE, content=TomlText(True, TVal("n1xdoc", kind="table", entries=[])), mode=0o644)
+    w.add("/L/n1.x.sbom.cdx.json", FILE, content="sibling-sbom", mode=0o644)
     # the layer itself
     k1 = sym_int(ctx, "k_n1", [ABSENT, DIR, LINK])
     w.add("/L/n1", k1, mode=sym_int(ctx, "m_n1", DIR_MODES), targets=list(TOP_TARGETS), sel=sym_int(ctx, "t_n1", range(len(TOP_TARGETS))))
@@ -66,7 +70,7 @@ def make_world(ctx, deep):
             kx = sym_int(ctx, f"k_{nm}x", [ABSENT, FILE, LINK])
             w.add(q, kx, content="deep", mode=0o644, targets=["/C/f", "/C/d"], sel=sym_int(ctx, f"t_{nm}x", [0, 1]))
             ctx.assume(z3.Implies(kx != ABSENT, k == DIR))
-    ctx.protected = ["/C", "/C/f", "/C/d", "/C/d/g", "/L/n2", "/L/n2/f", "/L/n2.toml", "/L"]
+    ctx.protected = ["/C", "/C/f", "/C/d", "/C/d/g", "/L/n2", "/L/n2/f", "/L/n2.toml", "/L", "/L/n1.x", "/L/n1.x.toml", "/L/n1.x.sbom.cdx.json"]
     ctx.own = [p for p in w.fs if p.startswith("/L/n1/")]
     return w
 
@@ -83,7 +87,9 @@ def scenario_of(ctx, m, deep):
             {"path": "C", "kind": "dir", "mode": iv("m_C")}, {"path": "C/f", "kind": "file", "content": "canary", "mode": 0o644},
             {"path": "C/d", "kind": "dir", "mode": iv("m_Cd")}, {"path": "C/d/g", "kind": "file", "content": "canary2", "mode": 0o644},
             {"path": "L/n2", "kind": "dir", "mode": iv("m_n2")}, {"path": "L/n2/f", "kind": "file", "content": "sibling", "mode": 0o644},
-            {"path": "L/n2.toml", "kind": "file", "content": "", "mode": 0o644}]
+            {"path": "L/n2.toml", "kind": "file", "content": "", "mode": 0o644},
+            {"path": "L/n1.x", "kind": "dir", "mode": 0o755}, {"path": "L/n1.x.toml", "kind": "file", "content": "", "mode": 0o644},
+            {"path": "L/n1.x.sbom.cdx.json", "kind": "file", "content": "sibling-sbom", "mode": 0o644}]
 
     def tgt(t):
         return "@" + t[1:] if t.startswith("/") else t
@@ -219,7 +225,7 @@ def real_violation(req, real):
     post = {e["path"]: e for e in real["tree"]}
     for e in req["tree"]:
         p = e["path"]
-        if p == "L" or p.startswith("L/n1"):
+        if p == "L" or p == "L/n1" or p.startswith("L/n1/") or p in ("L/n1.toml",) or (p.startswith("L/n1.sbom.")):
             continue
         q = post.get(p)
         if q is None:
